@@ -53,6 +53,12 @@ def request_url(iface, scheme, server, host, root, path, query):
     sc["scheme"] = scheme
     if server[1] == "none":
         sc["server"] = (server[0], None)
+    if host is not None and (len(path) + len(query)) % 3 == 0:
+        # the server address is optional in ASGI: with a Host header present it is not needed
+        if (len(path) + len(root)) % 2:
+            sc["server"] = None
+        else:
+            sc.pop("server", None)
     return asgi.Request(sc).url
 
 
